@@ -7,6 +7,8 @@ Sections
   c15_events  AppTraceEventTypes / ServerTraceEventTypes member tables (name, class name, __slots__), base-class
               slots; event-node name templates (trace/app/zk.py publish, zknamespace._path_trace_shard) and the
               decoder's split/unpack (trace/_zk.py TraceLoop._process_events)
+  c15_rules   rulefile._DNAT/_SNAT/_PASSTHROUGH_FILE_PATTERN, the .pattern text of the three compiled regular
+              expressions, rulefile._ANY, firewall.ANY_PORT / ANY_IP
 """
 import ast
 import importlib
@@ -29,7 +31,7 @@ def _defz(name, value, comment=''):
 
 
 def _defs(name, value, comment=''):
-    c = ('(* %s *)\n' % comment.replace('*)', '* )')) if comment else ''
+    c = ('(* %s *)\n' % comment.replace('*)', '* )').replace('(*', '( *').replace('"', "'")) if comment else ''
     return '%sDefinition %s : list Z := %s.\n' % (c, name, _codes(value))
 
 
@@ -391,3 +393,47 @@ def _emit_events():
 
 
 tables.register('c15_events', _emit_events)
+
+
+# ---------------------------------------------------------------------------
+# rule files
+# ---------------------------------------------------------------------------
+def rules_tables():
+    rf = _import('treadmill.rulefile')
+    fw = _import('treadmill.firewall')
+    t = {}
+    for key, attr in (('dnat', '_DNAT_FILE_PATTERN'), ('snat', '_SNAT_FILE_PATTERN'), ('pt', '_PASSTHROUGH_FILE_PATTERN')):
+        v = getattr(rf, attr, None)
+        if not isinstance(v, str):
+            raise TranslatorError('rulefile.%s is not a str' % attr)
+        t[key] = v
+    for key, attr in (('dnat_re', '_DNAT_FILE_RE'), ('snat_re', '_SNAT_FILE_RE'), ('pt_re', '_PASSTHROUGH_FILE_RE')):
+        v = getattr(rf, attr, None)
+        if not (hasattr(v, 'pattern') and isinstance(v.pattern, str)):
+            raise TranslatorError('rulefile.%s is not a compiled str regex' % attr)
+        if v.flags & ~32:       # re.UNICODE (32) is the default for str patterns
+            raise TranslatorError('rulefile.%s compiled with flags %d' % (attr, v.flags))
+        t[key] = v.pattern
+    if not isinstance(getattr(rf, '_ANY', None), str):
+        raise TranslatorError('rulefile._ANY is not a str')
+    t['any'] = rf._ANY
+    if not (isinstance(fw.ANY_PORT, int) and isinstance(fw.ANY_IP, str)):
+        raise TranslatorError('firewall.ANY_PORT / ANY_IP of unexpected type')
+    t['any_port'], t['any_ip'] = fw.ANY_PORT, fw.ANY_IP
+    return t
+
+
+def _emit_rules():
+    t = rules_tables()
+    out = ['(* C15 rule files: filename patterns, regex source texts, wildcards *)\n']
+    for k in ('dnat', 'snat', 'pt'):
+        out.append(_defs('c15_rule_%s_pattern' % k, t[k], t[k]))
+    for k in ('dnat_re', 'snat_re', 'pt_re'):
+        out.append(_defs('c15_rule_%s' % k, t[k], t[k]))
+    out.append(_defs('c15_rule_any', t['any'], 'rulefile._ANY'))
+    out.append(_defz('c15_rule_any_port', t['any_port'], 'firewall.ANY_PORT'))
+    out.append(_defs('c15_rule_any_ip', t['any_ip'], 'firewall.ANY_IP'))
+    return ''.join(out)
+
+
+tables.register('c15_rules', _emit_rules)
